@@ -94,12 +94,12 @@ theorem header_intW (lead : UInt8) (w v : Nat) (r : Bytes) (hc : classify lead =
     header (lead :: (be w v ++ r)) = some (.scalar (.int (signed w v)), r) := by
   simp [header, hc, headerOf, needs, beVal_be w v hv]
 
-theorem parse_of_header_scalar {b o r} (h : header b = some (.scalar o, r)) : parse b = some (o, r) := by
+theorem parse_of_header_scalar {b o r} (h : header b = some (.scalar o, r)) : parse b = some (o.toObj, r) := by
   simp [parse, parseF, h]
 
 theorem appendInt64_sound (i : Int) (lo : -9223372036854775808 ≤ i) (hi : i ≤ 9223372036854775807) (r : Bytes) :
     parse (appendInt64 i ++ r) = some (.int i, r) := by
-  apply parse_of_header_scalar
+  refine parse_of_header_scalar (o := .int i) ?_
   unfold appendInt64
   split
   · -- non-negative
